@@ -29,8 +29,12 @@ TAXON_PATTERNS = [
     "op/mult$", "meta", "meta/program", "x", "x/y", "nothing/here", "var/assignment", "call", "a/b/c", "a/b_", "def/function",
     "flow/conditional", "[ax]", "import/standard/urllib", "import/standard/xml", "import/standard/xml.etree", "a/b-",
     "import/standard/urllib\\.", "import",
+    # constructs of the documented dialect (the third-party `regex` module) that the stdlib `re` reads differently or
+    # rejects (seeded change C04-h): POSIX classes, possessive quantifiers, Unicode properties
+    "[[:lower:]]+/b", "a/[[:alpha:]]", "flow/[[:lower:]]++", "\\p{L}+/\\p{L}+", "op/mult(?|iply|)",
 ]
-PROG_PATTERNS = ["p1.py", "p1\\.py", "dir/.*\\.py", "q.py", ".*\\.py", "p.*py$|zz.py", "zz.py", "nothing.py", "p1_bis.py", "(dir/)?p1.py"]
+PROG_PATTERNS = ["p1.py", "p1\\.py", "dir/.*\\.py", "q.py", ".*\\.py", "p.*py$|zz.py", "zz.py", "nothing.py", "p1_bis.py", "(dir/)?p1.py",
+                 "p[[:digit:]]+\\.py", "[[:lower:]]++[[:digit:]]*\\.py", "\\p{Ll}\\d?\\.py"]
 PREDICATES = [
     "contains", "inside", "after", "before", "is", "equals", "x≤y≤y≤x", "x<y", "y1 < x1 == x2 <= y2", "x == y",
     "overlaps", "meets", "started by", "finishes", "in", "y≤x≤x≤y", "x<x<y<y", "x=x=y=y", "X <= Y", "during",
